@@ -63,7 +63,9 @@ LevelPols ==
         : i \in 1..Len(Chains), k \in {1, 3, 6}, j \in 1..Len(EChains)}
 AllSets == IF "RANDPOLS" \in DOMAIN IOEnv THEN PolSets ELSE LevelPols \cup PolSets
 
-EnvChoices == { <<TRUE, "u2", TRUE, TRUE, "g", TRUE, "u1", 3, "u1">>, <<FALSE, "none", FALSE, FALSE, "no", FALSE, "u2", 2, "u1">>,
+EnvChoices == { <<TRUE, "u2", TRUE, TRUE, "g", TRUE, "u2", 3, "u1">>, <<FALSE, "none", FALSE, FALSE, "no", TRUE, "u2", 5, "u1">>,   \* owner u2 with its manager u4 two hops from the resource
+                <<FALSE, "u2", TRUE, FALSE, "g2", TRUE, "u2", 2, "u1">>,
+                <<TRUE, "u2", TRUE, TRUE, "g", TRUE, "u1", 3, "u1">>, <<FALSE, "none", FALSE, FALSE, "no", FALSE, "u2", 2, "u1">>,
                 <<TRUE, "u3", FALSE, TRUE, "no", FALSE, "u1", 5, "u1">>, <<FALSE, "u2", TRUE, FALSE, "g", TRUE, "u2", 1, "u2">>,
                 <<TRUE, "u2", FALSE, FALSE, "g", FALSE, "u2", 4, "u1">>, <<FALSE, "u3", TRUE, TRUE, "no", TRUE, "u1", 1, "u2">>,
                 <<TRUE, "none", TRUE, FALSE, "no", TRUE, "u2", 5, "u2">>, <<FALSE, "u2", FALSE, TRUE, "g", FALSE, "u1", 3, "u1">>,
